@@ -33,21 +33,21 @@ DEFAULT_FEATURES = {
     "cmp_of_cmp": False,         # (== (< a b) (< c d)) is transpiled without parentheses: cc -Werror=parentheses
     "match_scrutinee_expr": False,  # match on a non-variable scrutinee: payload binding has no type
     "match_expr_string": False,  # string-valued match expression nested in an expression: transpiler assumes int64
-    "multi_effect_args": False,
+    "multi_effect_args": False,  # more than one order-sensitive operand or argument in one list (native evaluates right-to-left)
     "abs_effect_arg": False,     # (abs e) / (min a b) / (max a b) evaluate their arguments twice natively: effects duplicated
     "tuple_param": False,        # tuple-typed parameter: cc fails (unknown type name Tuple_...)
     "fnvalue_copy": False,       # let f2: fn.. = <fn-typed variable>: nanoc's evaluator double-frees
-    "neg_const_global": False,
+    "neg_const_global": False,   # (- g) with a negative constant global is transpiled to --1: cc fails
     "fnvalue_let_nested": False, # let of a function type inside a nested block: cc fails (unknown type name FnType_N)
     "match_expr_nested": False,  # match expression anywhere but directly as the returned value: transpiler types it as the function's return type
     "zero_arg_fnvalue": False,   # (p) with p a zero-parameter function value is not a call
-    "self_assign": False,
-    "break_in_match": False,
-    "void_bare_return": False,
-    "array_literal_effect": False,
-    "string_field_direct": False,
-    "aggregate_string_alias": False,  # a string variable stored (uncopied) into a struct/union/tuple/array field and reassigned later: nanoc's evaluator leaves the field dangling   # a struct's string field used directly as a let/set value: nanoc's evaluator frees it (garbage / crash)  # effectful element in an array literal: nanoc's evaluator evaluates the first element twice   # bare `return` inside a void function: the VM silently ends the program after the call     # break inside a match arm inside a loop: natively it only leaves the C switch        # set x x (string): nanoc's evaluator returns garbage   # (- g) with a negative constant global is transpiled to --1: cc fails
-    "print_indirect_call": False,  # (println (f args)) through a function value prints <unknown> natively  # more than one order-sensitive argument in one argument list (native evaluates right-to-left)
+    "self_assign": False,        # set s <expr that can evaluate to s itself, e.g. s or (cond (c s) ..)> on a string: nanoc's evaluator frees it (garbage / crash)
+    "break_in_match": False,     # break inside a match arm inside a loop: natively it only leaves the C switch
+    "void_bare_return": True,    # fixed in the VM (was: a void function with a bare return in a nested block ran off its end)
+    "array_literal_effect": False,  # effectful element in an array literal: nanoc's evaluator evaluates the first element twice (and native right-to-left)
+    "string_field_direct": False,   # a struct's string field used directly as a let/set value: nanoc's evaluator frees it (garbage / crash)
+    "aggregate_string_alias": False,  # a string variable stored (uncopied) into a struct/union/tuple/array field and reassigned later: nanoc's evaluator leaves the field dangling
+    "print_indirect_call": False,  # (println (f args)) through a function value prints <unknown> natively
 }
 
 BUILTIN_NAMES = set("""abs min max str_length str_concat str_substring str_contains str_equals char_at string_from_char
